@@ -173,7 +173,6 @@ Ltac destr_step H :=
   | context [match todo ?s ?i with _ => _ end] => destruct (todo s i) eqn:?
   | context [if busy ?j ?s then _ else _] => destruct (busy j s) eqn:?
   | context [match buf ?s with _ => _ end] => destruct (buf s) eqn:?
-  | context [if fused ?s then _ else _] => destruct (fused s) eqn:?
   | context [match iter_of ?j ?l with _ => _ end] => destruct (iter_of j l) as [[[] ?]|] eqn:?
   | context [if closed ?s then _ else _] => destruct (closed s) eqn:?
   | context [if room ?s then _ else _] => destruct (room s) eqn:?
@@ -190,12 +189,12 @@ Ltac destr_step H :=
 Definition Inv (prog : nat -> list N) (s : st) : Prop :=
   forall i, from i (map snd (deq s) ++ buf s) ++ tag i (todo s i) = tag i (prog i).
 
-Lemma inv_init f c prog : Inv prog (init f c prog).
+Lemma inv_init c prog : Inv prog (init c prog).
 Proof. intros i. reflexivity. Qed.
 
 Lemma inv_step prog s a s' e : Inv prog s -> step s a = Some (s', e) -> Inv prog s'.
 Proof.
-  intros I H. destruct a as [i|j|j|j|j|j|k| |i|j|j]; destr_step H;
+  intros I H. destruct a as [i|j|j|j|j|j|j|j|k| |i|j|j]; destr_step H;
     try (intros k0; specialize (I k0); cbn in *; exact I).
   - (* Send *)
     intros k. cbn. unfold upd. specialize (I k). rewrite app_assoc, from_app.
@@ -207,7 +206,7 @@ Proof.
   - (* Recv *)
     intros k. cbn. specialize (I k). match goal with E : buf s = _ |- _ => rewrite E in I end.
     rewrite map_app. cbn [map snd]. rewrite <- app_assoc. exact I.
-  - (* Next, fused *)
+  - (* Take *)
     intros k. cbn. specialize (I k). match goal with E : buf s = _ |- _ => rewrite E in I end.
     rewrite map_app. cbn [map snd]. rewrite <- app_assoc. exact I.
   - (* Next *)
@@ -215,7 +214,7 @@ Proof.
     rewrite map_app. cbn [map snd]. rewrite <- app_assoc. exact I.
 Qed.
 
-Theorem fifo_all_schedules prog f c sch s : run (init f c prog) sch = Some s -> Inv prog s.
+Theorem fifo_all_schedules prog c sch s : run (init c prog) sch = Some s -> Inv prog s.
 Proof. apply (run_invariant (Inv prog)); [apply inv_step|apply inv_init]. Qed.
 
 (* ------------------------------------------------------------------ 2. what holds of the iteration protocol under EVERY schedule *)
@@ -229,7 +228,7 @@ Definition Weak (s : st) : Prop :=
   (forall p, In p (delivered (seen s)) -> In (snd p) (map snd (deq s))) /\
   (forall j ph m, In (j, (ph, m)) (iters s) -> In m (map snd (deq s))).
 
-Lemma weak_init f c prog : Weak (init f c prog).
+Lemma weak_init c prog : Weak (init c prog).
 Proof. unfold Weak; cbn. split; [reflexivity|]. split; [constructor|]. split; [discriminate|]. split; intros; contradiction. Qed.
 
 (* steps that only add an event which hands no value to a script *)
@@ -257,7 +256,7 @@ Qed.
 
 Lemma weak_step s a s' e : Weak s -> step s a = Some (s', e) -> Weak s'.
 Proof.
-  intros W H. destruct a as [i|j|j|j|j|j|k| |i|j|j]; destr_step H;
+  intros W H. destruct a as [i|j|j|j|j|j|j|j|k| |i|j|j]; destr_step H;
     try (eapply weak_ext; [..|exact W]; reflexivity).
   - (* Recv value *)
     destruct W as (L & N & La & D & I). unfold Weak; cbn. rewrite delivered_app, map_app. cbn. rewrite !app_length. cbn.
@@ -265,12 +264,21 @@ Proof.
     + intros m' Hm. apply in_or_app. left. apply La. exact Hm.
     + intros q Hq. apply in_app_or in Hq. apply in_or_app. destruct Hq as [Hq|[<-|[]]]; [left; apply D; exact Hq|right; left; reflexivity].
     + intros j0 ph0 m0 Hin. apply in_or_app. left. eapply I. exact Hin.
-  - (* Next, fused *)
-    destruct W as (L & N & La & D & I). unfold Weak; cbn. rewrite delivered_app, map_app. cbn. rewrite !app_length. cbn.
-    split; [lia|]. split; [exact N|]. split; [|split].
+  - (* Take value *)
+    destruct W as (L & N & La & D & I). unfold Weak; cbn. rewrite delivered_app, map_app. cbn. rewrite !app_length, app_nil_r. cbn.
+    split; [lia|]. split; [|split; [|split]].
+    + constructor; [|exact N]. apply iter_of_none_notin. apply busy_false. assumption.
     + intros m' Hm. apply in_or_app. left. apply La. exact Hm.
-    + intros q Hq. apply in_app_or in Hq. apply in_or_app. destruct Hq as [Hq|[<-|[]]]; [left; apply D; exact Hq|right; left; reflexivity].
-    + intros j0 ph0 m0 Hin. apply in_or_app. left. eapply I. exact Hin.
+    + intros q Hq. apply in_or_app. left. apply D. exact Hq.
+    + intros j0 ph0 m0 [E|Hin]; apply in_or_app; [right; injection E as _ _ <-; left; reflexivity|left; eapply I; exact Hin].
+  - (* Fin *)
+    destruct W as (L & N & La & D & I).
+    match goal with It : iter_of j (iters s) = Some (Taken, ?m) |- _ =>
+      pose proof (drop_iter_length _ _ _ N It) as Le; pose proof (I _ _ _ (iter_of_some_in _ _ _ It)) as Hm end.
+    unfold Weak; cbn [seen deq last iters]. rewrite delivered_app. cbn [delivered]. rewrite app_length. cbn [length].
+    split; [lia|]. split; [apply nodup_keys_filter; exact N|]. split; [exact La|]. split.
+    + intros q Hq. apply in_app_or in Hq. destruct Hq as [Hq|[<-|[]]]; [apply D; exact Hq|]. cbn. exact Hm.
+    + intros j0 ph0 m0 Hin. apply drop_iter_in in Hin. eapply I. apply Hin.
   - (* Next value *)
     destruct W as (L & N & La & D & I). unfold Weak; cbn. rewrite delivered_app, map_app. cbn. rewrite !app_length, app_nil_r. cbn.
     split; [lia|]. split; [|split; [|split]].
@@ -299,27 +307,27 @@ Proof.
     + intros j0 ph0 m0 Hin. apply drop_iter_in in Hin. eapply I. apply Hin.
 Qed.
 
-Theorem weak_all_schedules prog f c sch s : run (init f c prog) sch = Some s -> Weak s.
+Theorem weak_all_schedules prog c sch s : run (init c prog) sch = Some s -> Weak s.
 Proof. apply (run_invariant Weak); [apply weak_step|apply weak_init]. Qed.
 
-(* ------------------------------------------------------------------ 3. exactly-once delivery when iterations do not overlap *)
+(* ------------------------------------------------------------------ 3. exactly-once delivery *)
 
 Definition guard_ok (s : st) (a : act) : bool :=
-  match a with Next _ => is_nil (iters s) | _ => true end.
+  match a with Next _ => is_nil (iters s) | Take _ => all_taken (iters s) | _ => true end.
 
 Definition counted (l : list (nat * (phase * (nat * N)))) : nat :=
   length (filter (fun p => match fst (snd p) with Counted => true | _ => false end) l).
 
-(* per receiver: what its script has been handed, plus the value it holds inside ForIter, is exactly
-   what the channel released to it, in order; range keys count 0,1,2,... *)
+(* per receiver: what its script has been handed, plus the value it holds inside NextEntry or the protocol,
+   is exactly what the channel released to it, in order; range keys count 0,1,2,... *)
 Definition Excl (s : st) : Prop :=
   (forall j, by_key j (deq s) = by_key j (delivered (seen s)) ++ held s j) /\
-  length (iters s) <= 1 /\
-  (forall j ph m, iter_of j (iters s) = Some (ph, m) -> ph <> Got -> last s = Some m) /\
+  (all_taken (iters s) = true \/ length (iters s) <= 1) /\
+  (forall j ph m, iter_of j (iters s) = Some (ph, m) -> ph = Stored \/ ph = Counted -> last s = Some m) /\
   rxcount s = length (entry_keys (seen s)) + counted (iters s) /\
   entry_keys (seen s) = seq 0 (length (entry_keys (seen s))).
 
-Lemma excl_init f c prog : Excl (init f c prog).
+Lemma excl_init c prog : Excl (init c prog).
 Proof. unfold Excl; cbn. repeat split; auto. intros j ph m H. discriminate. Qed.
 
 Lemma excl_ext s s' e :
@@ -348,9 +356,35 @@ Proof.
   - apply Nat.eqb_neq in Ek. rewrite (iter_of_cons_other _ Ek). reflexivity.
 Qed.
 
+Lemma all_taken_phase l j ph m : all_taken l = true -> iter_of j l = Some (ph, m) -> ph = Taken.
+Proof.
+  intros A H. apply iter_of_some_in in H. unfold all_taken in A. rewrite forallb_forall in A. specialize (A _ H).
+  cbn in A. destruct ph; try discriminate. reflexivity.
+Qed.
+
+Lemma all_taken_counted l : all_taken l = true -> counted l = 0.
+Proof.
+  unfold all_taken, counted. induction l as [|(k, (ph, m)) l IH]; cbn; [reflexivity|].
+  destruct ph; cbn; try discriminate. exact IH.
+Qed.
+
+Lemma all_taken_drop j l : all_taken l = true -> all_taken (drop_iter j l) = true.
+Proof.
+  unfold all_taken, drop_iter. intros A. apply forallb_forall. intros x Hx. apply filter_In in Hx.
+  rewrite forallb_forall in A. apply A. apply Hx.
+Qed.
+
+(* a receiver inside the protocol is the only one inside anything *)
+Lemma protocol_single s j ph m :
+  (all_taken (iters s) = true \/ length (iters s) <= 1) -> iter_of j (iters s) = Some (ph, m) -> ph <> Taken ->
+  iters s = [(j, (ph, m))].
+Proof.
+  intros [A|L] H Np; [exfalso; apply Np; eapply all_taken_phase; eassumption|]. apply iters_single; assumption.
+Qed.
+
 Lemma excl_step s a s' e : Excl s -> guard_ok s a = true -> step s a = Some (s', e) -> Excl s'.
 Proof.
-  intros X G H. destruct a as [i|j|j|j|j|j|k| |i|j|j]; destr_step H;
+  intros X G H. destruct a as [i|j|j|j|j|j|j|j|k| |i|j|j]; destr_step H;
     try (eapply excl_ext; [..|exact X]; reflexivity).
   - (* Recv value *)
     destruct X as (A & B & Cc & D & K). unfold Excl, held. cbn.
@@ -359,32 +393,49 @@ Proof.
     + match goal with Bz : busy k s = false |- _ => apply busy_false in Bz; rewrite Bz in * end.
       rewrite app_nil_r in *. rewrite A. reflexivity.
     + rewrite (by_key_one_other k j) by exact Ne. rewrite !app_nil_r. exact A.
-  - (* Next, fused: value and entry in one step *)
-    destruct X as (A & B & Cc & D & K). cbn in G. destruct (iters s) as [|q qs] eqn:P; [|discriminate].
-    unfold counted in D. cbn in D.
+  - (* Take value: the receiver now holds it *)
+    destruct X as (A & B & Cc & D & K). cbn in G.
+    unfold Excl, held. cbn [deq seen last iters rxcount]. rewrite delivered_app, entry_keys_app. cbn [delivered entry_keys]. rewrite !app_nil_r.
+    split; [|split; [left; cbn; exact G|split; [|split; [|exact K]]]].
+    + intros k. rewrite by_key_app. specialize (A k). unfold held in A. destruct (Nat.eq_dec j k) as [->|Ne].
+      * match goal with Bz : busy k s = false |- _ => apply busy_false in Bz; rewrite Bz in A end.
+        rewrite iter_of_cons_same, by_key_one_same, A, app_nil_r. reflexivity.
+      * rewrite (iter_of_cons_other _ Ne), by_key_one_other by exact Ne. rewrite app_nil_r. exact A.
+    + intros k ph m Hk Hp. destruct (Nat.eq_dec j k) as [->|Ne].
+      * rewrite iter_of_cons_same in Hk. injection Hk as <- _. destruct Hp; discriminate.
+      * rewrite (iter_of_cons_other _ Ne) in Hk. eapply Cc; eassumption.
+    + unfold counted in *. cbn. exact D.
+  - (* Fin: the receiver is handed the value it holds *)
+    destruct X as (A & B & Cc & D & K).
+    match goal with It : iter_of j (iters s) = Some (Taken, ?m) |- _ => rename m into m0; rename It into It0 end.
+    assert (AT : all_taken (iters s) = true).
+    { destruct B as [B|B]; [exact B|]. rewrite (iters_single s j _ B It0). reflexivity. }
+    rewrite (all_taken_counted _ AT) in D.
     unfold Excl, held. cbn [deq seen last iters rxcount]. rewrite delivered_app, entry_keys_app. cbn [delivered entry_keys].
     rewrite app_length. cbn [length].
-    split; [|split; [cbn; lia|split; [|split; [unfold counted; cbn; lia|]]]].
-    + intros k. rewrite !by_key_app. specialize (A k). unfold held in A. rewrite P, iter_of_nil, app_nil_r in A.
-      rewrite iter_of_nil, app_nil_r, A. reflexivity.
-    + intros k ph m Hk _. rewrite iter_of_nil in Hk. discriminate.
+    split; [|split; [left; apply all_taken_drop; exact AT|split; [|split]]].
+    + intros k. rewrite by_key_app. specialize (A k). unfold held in A. destruct (Nat.eq_dec j k) as [->|Ne].
+      * rewrite It0 in A. rewrite iter_of_drop_same, by_key_one_same, app_nil_r. exact A.
+      * rewrite (iter_of_drop_other _ _ _ Ne), by_key_one_other by exact Ne. rewrite app_nil_r. exact A.
+    + intros k ph m Hk Hp. exfalso. pose proof (all_taken_phase _ _ _ _ (all_taken_drop j _ AT) Hk) as E. subst ph. destruct Hp; discriminate.
+    + rewrite (all_taken_counted _ (all_taken_drop j _ AT)). lia.
     + rewrite seq_app. cbn. rewrite <- K. f_equal. f_equal. lia.
   - (* Next value *)
     destruct X as (A & B & Cc & D & K). cbn in G. destruct (iters s) as [|q qs] eqn:P; [|discriminate].
     unfold Excl, held. cbn. rewrite delivered_app, entry_keys_app. cbn. rewrite !app_nil_r.
-    split; [|split; [cbn; lia|split; [|split; [exact D|exact K]]]].
+    split; [|split; [right; cbn; lia|split; [|split; [exact D|exact K]]]].
     + intros k. rewrite by_key_app. specialize (A k). unfold held in A. rewrite P, iter_of_nil, app_nil_r in A.
       destruct (Nat.eq_dec j k) as [->|Ne].
       * rewrite iter_of_cons_same, by_key_one_same, A. reflexivity.
       * rewrite (iter_of_cons_other _ Ne), iter_of_nil, by_key_one_other by exact Ne. rewrite !app_nil_r. exact A.
     + intros k ph m Hk Hg. destruct (Nat.eq_dec j k) as [->|Ne].
-      * rewrite iter_of_cons_same in Hk. injection Hk as <- _. contradiction.
+      * rewrite iter_of_cons_same in Hk. injection Hk as <- _. destruct Hg; discriminate.
       * rewrite (iter_of_cons_other _ Ne), iter_of_nil in Hk. discriminate.
   - (* Store *)
     destruct X as (A & B & Cc & D & K).
-    match goal with It : iter_of j (iters s) = Some (Got, ?m) |- _ => pose proof (iters_single s j _ B It) as P; rename m into m0 end.
+    match goal with It : iter_of j (iters s) = Some (Got, ?m) |- _ => pose proof (protocol_single s j _ _ B It ltac:(discriminate)) as P; rename m into m0 end.
     unfold Excl. cbn [deq seen last iters rxcount]. rewrite P, drop_single, delivered_app, entry_keys_app. cbn [delivered entry_keys]. rewrite !app_nil_r.
-    split; [|split; [cbn; lia|split; [|split; [|exact K]]]].
+    split; [|split; [right; cbn; lia|split; [|split; [|exact K]]]].
     + intros k. specialize (A k). rewrite (held_single s j k _ P) in A. unfold held. cbn [iters].
       destruct (Nat.eq_dec j k) as [->|Ne].
       * rewrite iter_of_cons_same. rewrite Nat.eqb_refl in A. exact A.
@@ -396,9 +447,9 @@ Proof.
   - (* Count *)
     destruct X as (A & B & Cc & D & K).
     match goal with It : iter_of j (iters s) = Some (Stored, ?m) |- _ =>
-      pose proof (iters_single s j _ B It) as P; pose proof (Cc j Stored m It ltac:(discriminate)) as Lm; rename m into m0 end.
+      pose proof (protocol_single s j _ _ B It ltac:(discriminate)) as P; pose proof (Cc j Stored m It (or_introl eq_refl)) as Lm; rename m into m0 end.
     unfold Excl. cbn [deq seen last iters rxcount]. rewrite P, drop_single, delivered_app, entry_keys_app. cbn [delivered entry_keys]. rewrite !app_nil_r.
-    split; [|split; [cbn; lia|split; [|split; [|exact K]]]].
+    split; [|split; [right; cbn; lia|split; [|split; [|exact K]]]].
     + intros k. specialize (A k). rewrite (held_single s j k _ P) in A. unfold held. cbn [iters].
       destruct (Nat.eq_dec j k) as [->|Ne].
       * rewrite iter_of_cons_same. rewrite Nat.eqb_refl in A. exact A.
@@ -410,11 +461,11 @@ Proof.
   - (* Entry *)
     destruct X as (A & B & Cc & D & K).
     match goal with It : iter_of j (iters s) = Some (Counted, ?m) |- _ =>
-      pose proof (iters_single s j _ B It) as P; pose proof (Cc j Counted m It ltac:(discriminate)) as Lm; rename m into m0 end.
+      pose proof (protocol_single s j _ _ B It ltac:(discriminate)) as P; pose proof (Cc j Counted m It (or_intror eq_refl)) as Lm; rename m into m0 end.
     match goal with E : last s = Some ?q |- _ => lazymatch q with m0 => fail | _ => assert (q = m0) by congruence; subst q end end.
     unfold Excl. cbn [deq seen last iters rxcount]. rewrite P, drop_single, delivered_app, entry_keys_app. cbn [delivered entry_keys].
     rewrite app_length. cbn [length]. rewrite P in D. cbn in D.
-    split; [|split; [cbn; lia|split; [|split; [cbn; lia|]]]].
+    split; [|split; [right; cbn; lia|split; [|split; [cbn; lia|]]]].
     + intros k. specialize (A k). rewrite (held_single s j k _ P) in A. unfold held. cbn [iters]. rewrite iter_of_nil, app_nil_r, by_key_app.
       destruct (Nat.eq_dec j k) as [->|Ne].
       * rewrite Nat.eqb_refl in A. rewrite by_key_one_same. exact A.
@@ -432,11 +483,11 @@ Proof.
     apply (IH s1); [|exact Gr|exact R]. eapply excl_step; [exact X| |exact E]. destruct a; exact Ga || reflexivity.
 Qed.
 
-Theorem exclusive_exactly_once prog f c sch s :
-  run (init f c prog) sch = Some s -> exclusive (init f c prog) sch = true -> Excl s.
+Theorem exclusive_exactly_once prog c sch s :
+  run (init c prog) sch = Some s -> exclusive (init c prog) sch = true -> Excl s.
 Proof. intros R G. eapply excl_run; [apply excl_init|exact G|exact R]. Qed.
 
-(* at most one receiver iterates => iterations never overlap *)
+(* at most one receiver uses the protocol and nobody ranges => the guard holds *)
 Lemma single_exclusive j0 sch : forall s,
   (forall j, In j (map fst (iters s)) -> j = j0) -> single_iter j0 sch = true -> exclusive s sch = true.
 Proof.
@@ -444,11 +495,11 @@ Proof.
   apply andb_prop in S. destruct S as (Sa & Sr).
   destruct (step s a) as [(s1, e)|] eqn:E; [|reflexivity].
   apply andb_true_intro. split.
-  - destruct a; try reflexivity. apply Nat.eqb_eq in Sa. subst j. cbn in E.
+  - destruct a; try reflexivity; [discriminate|]. apply Nat.eqb_eq in Sa. subst j. cbn in E.
     destruct (busy j0 s) eqn:M; [discriminate|]. apply busy_false in M. apply iter_of_none_notin in M.
     destruct (iters s) as [|q qs]; [reflexivity|]. exfalso. apply M. left. apply P. left. reflexivity.
   - apply IH; [|exact Sr]. intros j Hj.
-    destruct a as [i|k|k|k|k|k|k| |i|k|k]; destr_step E; cbn in Hj; try (apply P; exact Hj);
+    destruct a as [i|k|k|k|k|k|k|k|k| |i|k|k]; try discriminate Sa; destr_step E; cbn in Hj; try (apply P; exact Hj);
       try (apply Nat.eqb_eq in Sa; subst k).
     + destruct Hj as [<-|Hj]; [reflexivity|apply P; exact Hj].
     + destruct Hj as [<-|Hj]; [reflexivity|]. apply in_map_iff in Hj. destruct Hj as (q & <- & Hp).
@@ -458,30 +509,24 @@ Proof.
     + apply in_map_iff in Hj. destruct Hj as (q & <- & Hp). apply drop_iter_in in Hp. apply P. apply in_map. apply Hp.
 Qed.
 
-Lemma single_exclusive_init j0 f c prog sch : single_iter j0 sch = true -> exclusive (init f c prog) sch = true.
+Lemma single_exclusive_init j0 c prog sch : single_iter j0 sch = true -> exclusive (init c prog) sch = true.
 Proof. apply single_exclusive. intros j []. Qed.
 
-(* the repaired ForIter (value and entry in one step) never leaves a receiver inside ForIter:
-   every schedule satisfies the guard *)
-Lemma fused_step s a s' e : fused s = true -> iters s = [] -> step s a = Some (s', e) -> fused s' = true /\ iters s' = [].
+(* schedules without the Next/Entry protocol (send, receive, range, close, cancellation) never put a
+   receiver inside it: every such schedule satisfies the guard *)
+Lemma one_step_step s a s' e : two_step a = false -> all_taken (iters s) = true -> step s a = Some (s', e) -> all_taken (iters s') = true.
 Proof.
-  intros F P H. destruct a as [i|j|j|j|j|j|k| |i|j|j]; cbn in H; rewrite ?F, ?P in H; destr_step H; cbn; split; (assumption || reflexivity).
+  intros T P H. destruct a as [i|j|j|j|j|j|j|j|k| |i|j|j]; try discriminate; destr_step H; cbn; try assumption.
+  apply all_taken_drop. exact P.
 Qed.
 
-Lemma fused_exclusive sch : forall s, fused s = true -> iters s = [] -> exclusive s sch = true.
+Lemma one_step_exclusive sch : forall s, one_step_only sch = true -> all_taken (iters s) = true -> exclusive s sch = true.
 Proof.
-  induction sch as [|a r IH]; intros s F P; cbn; [reflexivity|].
+  induction sch as [|a r IH]; intros s O P; cbn in *; [reflexivity|].
+  apply andb_prop in O. destruct O as (Oa & Or). apply negb_true_iff in Oa.
   destruct (step s a) as [(s1, e)|] eqn:E; [|reflexivity].
-  destruct (fused_step _ _ _ _ F P E) as (F1 & P1). rewrite (IH _ F1 P1), andb_true_r.
-  destruct a; try reflexivity. rewrite P. reflexivity.
-Qed.
-
-Lemma fused_run sch : forall s s', fused s = true -> iters s = [] -> run s sch = Some s' -> iters s' = [].
-Proof.
-  induction sch as [|a r IH]; intros s s' F P R; cbn in R.
-  - injection R as <-. exact P.
-  - destruct (step s a) as [(s1, e)|] eqn:E; [|discriminate].
-    destruct (fused_step _ _ _ _ F P E) as (F1 & P1). apply (IH s1); assumption.
+  rewrite (IH _ Or (one_step_step _ _ _ _ Oa P E)), andb_true_r.
+  destruct a; try reflexivity; try discriminate. exact P.
 Qed.
 
 (* ------------------------------------------------------------------ 4. closed and drained: nil, end of iteration, for ever *)
@@ -506,7 +551,7 @@ Proof. intros C B M. cbn. rewrite M, B, C. reflexivity. Qed.
 Lemma iter_end_only_when s j s' :
   step s (Next j) = Some (s', EvIterEnd j) -> closed s = true /\ buf s = [] /\ s' = note s (EvIterEnd j).
 Proof.
-  cbn. destruct (busy j s); [discriminate|]. destruct (buf s); [|destruct (fused s); discriminate].
+  cbn. destruct (busy j s); [discriminate|]. destruct (buf s); [|discriminate].
   destruct (closed s); [|discriminate]. intros [= <-]. repeat split.
 Qed.
 
@@ -517,7 +562,6 @@ Lemma open_or_nonempty_no_nil s j s' e :
 Proof.
   intros O [H|H]; cbn in H; destruct (busy j s); try discriminate;
     destruct (buf s) as [|m r]; try (injection H as <- <-; split; discriminate);
-    try (destruct (fused s); injection H as <- <-; split; discriminate);
     destruct (closed s); try discriminate; destruct O as [O|O]; congruence.
 Qed.
 
@@ -528,7 +572,7 @@ Definition no_value (e : ev) : Prop :=
 
 Lemma drained_step s a s' e : Drained s -> step s a = Some (s', e) -> Drained s' /\ no_value e.
 Proof.
-  intros (C & B) H. destruct a as [i|j|j|j|j|j|k| |i|j|j]; cbn in H; rewrite ?C, ?B in H; destr_step H;
+  intros (C & B) H. destruct a as [i|j|j|j|j|j|j|j|k| |i|j|j]; cbn in H; rewrite ?C, ?B in H; destr_step H;
     (split; [split; cbn; (assumption || reflexivity)|cbn; exact I]).
 Qed.
 
@@ -545,15 +589,15 @@ Qed.
 
 (* ------------------------------------------------------------------ 5. the statements at quiescence *)
 
-Theorem guarded_delivery prog f c sch s :
-  run (init f c prog) sch = Some s -> exclusive (init f c prog) sch = true ->
+Theorem guarded_delivery prog c sch s :
+  run (init c prog) sch = Some s -> exclusive (init c prog) sch = true ->
   buf s = [] -> iters s = [] ->
   (forall i, from i (map snd (deq s)) ++ tag i (todo s i) = tag i (prog i)) /\
   (forall j, by_key j (delivered (seen s)) = by_key j (deq s)) /\
   entry_keys (seen s) = seq 0 (length (entry_keys (seen s))).
 Proof.
-  intros R G B P. pose proof (fifo_all_schedules _ _ _ _ _ R) as I.
-  destruct (exclusive_exactly_once _ _ _ _ _ R G) as (A & _ & _ & _ & K). repeat split.
+  intros R G B P. pose proof (fifo_all_schedules _ _ _ _ R) as I.
+  destruct (exclusive_exactly_once _ _ _ _ R G) as (A & _ & _ & _ & K). repeat split.
   - intros i. specialize (I i). rewrite B, app_nil_r in I. exact I.
   - intros j. specialize (A j). unfold held in A. rewrite P, iter_of_nil, app_nil_r in A. symmetry. exact A.
   - exact K.
@@ -561,15 +605,15 @@ Qed.
 
 (* when a range loop ends: the channel is closed, everything that was sent has been released, and the
    loop has been handed everything the channel released to it *)
-Theorem iteration_complete prog f c sch s j s' :
-  run (init f c prog) sch = Some s -> exclusive (init f c prog) sch = true ->
+Theorem iteration_complete prog c sch s j s' :
+  run (init c prog) sch = Some s -> exclusive (init c prog) sch = true ->
   step s (Next j) = Some (s', EvIterEnd j) ->
   closed s = true /\
   (forall i, from i (map snd (deq s)) ++ tag i (todo s i) = tag i (prog i)) /\
   by_key j (delivered (seen s)) = by_key j (deq s).
 Proof.
-  intros R G H. pose proof (fifo_all_schedules _ _ _ _ _ R) as I.
-  destruct (exclusive_exactly_once _ _ _ _ _ R G) as (A & _).
+  intros R G H. pose proof (fifo_all_schedules _ _ _ _ R) as I.
+  destruct (exclusive_exactly_once _ _ _ _ R G) as (A & _).
   assert (M : busy j s = false).
   { cbn in H. destruct (busy j s); [discriminate|reflexivity]. }
   destruct (iter_end_only_when _ _ _ H) as (C & B & _). repeat split.
@@ -578,15 +622,14 @@ Proof.
   - specialize (A j). unfold held in A. apply busy_false in M. rewrite M, app_nil_r in A. symmetry. exact A.
 Qed.
 
-Theorem repaired_delivery prog c sch s :
-  run (init true c prog) sch = Some s -> buf s = [] ->
+Theorem one_step_delivery prog c sch s :
+  run (init c prog) sch = Some s -> one_step_only sch = true -> buf s = [] -> iters s = [] ->
   (forall i, from i (map snd (deq s)) ++ tag i (todo s i) = tag i (prog i)) /\
   (forall j, by_key j (delivered (seen s)) = by_key j (deq s)) /\
   entry_keys (seen s) = seq 0 (length (entry_keys (seen s))).
 Proof.
-  intros R B. apply (guarded_delivery prog true c sch s R); [|exact B|].
-  - apply fused_exclusive; reflexivity.
-  - eapply fused_run; [| |exact R]; reflexivity.
+  intros R O B P. apply (guarded_delivery prog c sch s R); [|exact B|exact P].
+  apply one_step_exclusive; [exact O|reflexivity].
 Qed.
 
 (* ------------------------------------------------------------------ 6. refutation: two receivers range over one channel *)
@@ -596,11 +639,11 @@ Definition sch_bad : list act :=
   [Send 0; Send 0; Next 1; Next 2; Store 1; Count 1; Store 2; Count 2; Entry 1; Entry 2; Close 0; Next 1; Next 2].
 
 Lemma range_multi_witness :
-  exists s, run (init false 2 prog2) sch_bad = Some s /\
+  exists s, run (init 2 prog2) sch_bad = Some s /\
             buf s = [] /\ iters s = [] /\ (forall i, todo s i = []) /\
             map snd (deq s) = [(0, 10%N); (0, 11%N)] /\
             delivered (seen s) = [(1, (0, 11%N)); (2, (0, 11%N))] /\
-            multi_iter sch_bad = true /\ exclusive (init false 2 prog2) sch_bad = false.
+            multi_iter sch_bad = true /\ exclusive (init 2 prog2) sch_bad = false.
 Proof.
   eexists. split; [vm_compute; reflexivity|]. cbn [buf iters todo deq seen].
   repeat split; try reflexivity. intros i. unfold upd. destruct i; reflexivity.
@@ -749,12 +792,12 @@ Proof. reflexivity. Qed.
 
 (* n senders; everything sent, queue drained, no iteration in progress: the scripts were handed exactly
    the multiset of values of the senders' programs *)
-Theorem guarded_multiset prog f c sch s n :
-  run (init f c prog) sch = Some s -> exclusive (init f c prog) sch = true ->
+Theorem guarded_multiset prog c sch s n :
+  run (init c prog) sch = Some s -> exclusive (init c prog) sch = true ->
   buf s = [] -> iters s = [] -> (forall i, todo s i = []) -> (forall i, n <= i -> prog i = []) ->
   Permutation (payloads (map snd (delivered (seen s)))) (flat_map prog (seq 0 n)).
 Proof.
-  intros R G B P T Z. destruct (guarded_delivery _ _ _ _ _ R G B P) as (F & D & _).
+  intros R G B P T Z. destruct (guarded_delivery _ _ _ _ R G B P) as (F & D & _).
   assert (F' : forall i, from i (map snd (deq s)) = tag i (prog i)).
   { intros i. specialize (F i). rewrite T in F. unfold tag in F at 1. cbn in F. rewrite app_nil_r in F. exact F. }
   assert (Pd : Permutation (delivered (seen s)) (deq s)) by (apply keyed_perm; exact D).
@@ -767,4 +810,46 @@ Proof.
     assert (Hin : In m (from (fst m) (map snd (deq s)))).
     { unfold from. apply filter_In. split; [exact Hm|apply Nat.eqb_refl]. }
     rewrite F', (Z _ L) in Hin. exact Hin.
+Qed.
+
+Theorem one_step_multiset prog c sch s n :
+  run (init c prog) sch = Some s -> one_step_only sch = true ->
+  buf s = [] -> iters s = [] -> (forall i, todo s i = []) -> (forall i, n <= i -> prog i = []) ->
+  Permutation (payloads (map snd (delivered (seen s)))) (flat_map prog (seq 0 n)).
+Proof.
+  intros R O B P T Z. apply (guarded_multiset prog c sch s n R); try assumption.
+  apply one_step_exclusive; [exact O|reflexivity].
+Qed.
+
+(* ------------------------------------------------------------------ 9. range loops (Take / Fin = Chan.NextEntry) end at close *)
+
+Lemma take_closed_drained s j :
+  closed s = true -> buf s = [] -> busy j s = false ->
+  step s (Take j) = Some (note s (EvIterEnd j), EvIterEnd j).
+Proof. intros C B M. cbn. rewrite M, B, C. reflexivity. Qed.
+
+Lemma take_end_only_when s j s' :
+  step s (Take j) = Some (s', EvIterEnd j) -> closed s = true /\ buf s = [] /\ s' = note s (EvIterEnd j).
+Proof.
+  cbn. destruct (busy j s); [discriminate|]. destruct (buf s); [|discriminate].
+  destruct (closed s); [|discriminate]. intros [= <-]. repeat split.
+Qed.
+
+(* when a range loop ends: the channel is closed, everything that was sent has been released, and the loop
+   has been handed everything the channel released to it - under every schedule of sends, receives and ranges *)
+Theorem range_complete prog c sch s j s' :
+  run (init c prog) sch = Some s -> one_step_only sch = true ->
+  step s (Take j) = Some (s', EvIterEnd j) ->
+  closed s = true /\
+  (forall i, from i (map snd (deq s)) ++ tag i (todo s i) = tag i (prog i)) /\
+  by_key j (delivered (seen s)) = by_key j (deq s).
+Proof.
+  intros R O H. pose proof (fifo_all_schedules _ _ _ _ R) as I.
+  assert (G : exclusive (init c prog) sch = true) by (apply one_step_exclusive; [exact O|reflexivity]).
+  destruct (exclusive_exactly_once _ _ _ _ R G) as (A & _).
+  assert (M : busy j s = false) by (cbn in H; destruct (busy j s); [discriminate|reflexivity]).
+  destruct (take_end_only_when _ _ _ H) as (C & B & _). repeat split.
+  - exact C.
+  - intros i. specialize (I i). rewrite B, app_nil_r in I. exact I.
+  - specialize (A j). unfold held in A. apply busy_false in M. rewrite M, app_nil_r in A. symmetry. exact A.
 Qed.
